@@ -283,7 +283,7 @@ def run_log(log):
     for i, op in enumerate(log):
         try:
             p = w.do(op)
-        except core.HarnessError:
+        except (core.HarnessError, core.Refused):
             raise
         except Exception as e:
             raise core.HarnessError('op %r cannot be executed: %s: %s' % (op, type(e).__name__, e))
@@ -369,7 +369,7 @@ def machine_shard(st, shard, nshards, payload):
             self.log.append(op)
             try:
                 p = self.world.do(op)
-            except core.HarnessError:
+            except (core.HarnessError, core.Refused):
                 raise
             except Exception as e:
                 raise core.HarnessError('op %r cannot be executed: %s: %s' % (op, type(e).__name__, e))
@@ -451,6 +451,9 @@ def machine_shard(st, shard, nshards, payload):
         run_state_machine_as_test(seed(payload['seed'] * 64 + shard)(Machine), settings=sett)
     except core.HarnessError:
         raise
+    except core.Refused as r:
+        st.failure = r.failure
+        return
     except BaseException as ex:
         # AssertionError from _fail, or Hypothesis' Flaky/ExceptionGroup wrappers around it
         if 'log' not in found:
